@@ -153,7 +153,7 @@ def gen_modules(rng, tier):
     """the modules of the layer; m["x"] as in extgen for the plain members, m["w"][type name] =
     {fam, wrap, k, kind}, m["trees"] for every type"""
     mods = []
-    nmod = 1 if tier == "quick" else 3
+    nmod = 2 if tier == "quick" else 4
     for mi in range(nmod):
         m = new_module("XF%d" % mi, "AUTOMATIC")
         root = [("r0", {"k": "bool"}, False), ("r1", _I((0, 255, False)), True)] if mi % 2 == 0 else \
